@@ -1,6 +1,7 @@
 import CtrlVerif.Driver.TF
 import CtrlVerif.Driver.SS
 import CtrlVerif.Driver.Shape
+import CtrlVerif.Driver.ShapeRoutes
 import CtrlVerif.Driver.Config
 import CtrlVerif.Driver.Index
 import CtrlVerif.Driver.FRD
@@ -31,6 +32,7 @@ def dispatch (line : String) : String :=
   | "tf" :: rest => TF.handle rest
   | "ss" :: rest => SS.handle rest
   | "c18" :: rest => Shape.handle rest
+  | "c18r" :: rest => ShapeRoutes.handle rest
   | "c19" :: rest => Config.handle rest
   | "idx" :: rest => Index.handle rest
   | "frd" :: rest => FRD.handle rest
